@@ -19,7 +19,6 @@ package main
 import (
 	"context"
 	"encoding/json"
-	"flag"
 	"fmt"
 	"os"
 	"strconv"
@@ -32,11 +31,8 @@ import (
 )
 
 type job struct {
-	c      *Case
-	line   string
-	det    *detResult
-	free   *freeResult
-	reconf *reconfResult
+	c   *Case
+	res *caseResult // nil: the case could not be run (worker crashed or hung on it)
 }
 
 func ptr(v int64) *int64 { return &v }
@@ -94,15 +90,20 @@ func witnesses() []*Case {
 
 func main() {
 	tStart := time.Now()
-	child := flag.String("child", "", "internal: run a scenario in this process (d69)")
-	for _, a := range os.Args[1:] {
+	// child modes (internal): `-child d69` the race scenario; `-child worker <in> <out> <par>` runs a
+	// chunk of cases in this process and streams the results to <out>
+	for i, a := range os.Args[1:] {
 		if a == "-child" || a == "--child" {
-			// the child does not need the other flags
+			rest := os.Args[i+2:]
+			if len(rest) >= 4 && rest[0] == "worker" {
+				par, _ := strconv.Atoi(rest[3])
+				workerMain(rest[1], rest[2], par)
+				return
+			}
 			raceChild()
 			return
 		}
 	}
-	_ = child
 	env, rep := vh.Parse("C16")
 	rng := vh.NewRng(env.Seed)
 	rep.Rule = "a case is one history of sender operations (add/step/stop/append/sendDirect/applyConfig) with its settings and client behaviour; " +
@@ -133,8 +134,8 @@ func main() {
 	}
 
 	// ---------------------------------------------------------------- A: GetInstance
-	if env.Replay == "" || hasKind(cases, "getinstance") {
-		checkGetInstance(env, rep)
+	if env.Replay == "" {
+		cases = append(cases, &Case{Kind: "getinstance", Client: "consume"})
 	}
 	// ---------------------------------------------------------------- A': settings vs the Go memory model (D69)
 	if env.Replay == "" || hasKind(cases, "race") {
@@ -161,6 +162,13 @@ func main() {
 			cases = append(cases, genFree(rng.Fork(), env.Thorough))
 		}
 		cases = append(cases, reconfCases(rng.Fork(), env.Thorough)...)
+		nStorm := 250
+		if env.Thorough {
+			nStorm = 1200
+		}
+		for i := 0; i < nStorm; i++ {
+			cases = append(cases, genStorm(rng.Fork()))
+		}
 	} else {
 		// a replayed free-running case is repeated: schedules differ from run to run
 		var more []*Case
@@ -175,42 +183,25 @@ func main() {
 	}
 
 	// ---------------------------------------------------------------- run on the implementation
+	// in worker processes with deadlines: a crash or a hang of the implementation (a panic in one of its
+	// own goroutines cannot be recovered in-process) costs one worker, is reported as a failure of the
+	// property with the scenario as replay, and the remaining cases still run
 	jobs := make([]*job, 0, len(cases))
 	for _, c := range cases {
-		if c.Kind == "det" || c.Kind == "free" || c.Kind == "reconf" {
+		switch c.Kind {
+		case "det", "free", "reconf", "getinstance", "stopstorm":
 			jobs = append(jobs, &job{c: c})
 		}
 	}
-	var wg sync.WaitGroup
-	sem := make(chan struct{}, 8)
-	for _, j := range jobs {
-		wg.Add(1)
-		sem <- struct{}{}
-		go func(j *job) {
-			defer wg.Done()
-			defer func() { <-sem }()
-			e := newEvalCtx(j.c.allSpecs())
-			if j.c.Kind == "det" {
-				j.det = runDet(j.c, e)
-				j.line = j.c.driverLine(e.recs) // after the run: a recycled pack object fixes its encoding at hand-in
-			} else if j.c.Kind == "reconf" {
-				j.reconf = runReconf(j.c, e)
-				j.line = j.reconf.modelLine
-			} else {
-				j.free = runFree(j.c, e)
-				j.line = j.free.modelLine
-			}
-		}(j)
-	}
-	wg.Wait()
+	runInWorkers(env, rep, jobs)
 	rep.Note("implementation phase done at %.1fs", time.Since(tStart).Seconds())
 
 	// ---------------------------------------------------------------- model
 	var lines []string
 	var idx []int
 	for i, j := range jobs {
-		if j.line != "" {
-			lines = append(lines, j.line)
+		if j.res != nil && j.res.Line != "" {
+			lines = append(lines, j.res.Line)
 			idx = append(idx, i)
 		}
 	}
@@ -219,7 +210,10 @@ func main() {
 	}
 	outs, err := runDriverParallel(env.Driver, lines, 6)
 	if err != nil {
-		vh.Die("%v", err)
+		// the verdict on the implementation does not depend on the model: keep what was evaluated
+		rep.Fail("correspondence", "model:driver-failed", "the model driver could not be run: "+vh.Clip(err.Error(), 300), map[string]interface{}{"case": &Case{Kind: "driver"}})
+		outs = make([]string, len(lines))
+		idx = nil
 	}
 	rep.Note("driver phase done at %.1fs", time.Since(tStart).Seconds())
 	model := map[int]string{}
@@ -230,18 +224,11 @@ func main() {
 	// ---------------------------------------------------------------- compare and report
 	for i, j := range jobs {
 		c := j.c
-		var finds []finding
-		var implPacks []string
-		implState := ""
-		nPack := 0
-		if j.det != nil {
-			finds, implPacks, implState, nPack = j.det.finds, j.det.packs, j.det.state, j.det.nPack
-		} else if j.reconf != nil {
-			finds, implPacks, nPack = j.reconf.finds, j.reconf.packs, j.reconf.nPack
-		} else {
-			finds, implPacks, nPack = j.free.finds, j.free.packs, j.free.nPack
-			rep.CountN("free:queue-drops", j.free.drops)
+		if j.res == nil {
+			continue // reported by runInWorkers
 		}
+		finds, implPacks, implState, nPack := j.res.Finds, j.res.Packs, j.res.State, j.res.NPack
+		rep.CountN("free:queue-drops", j.res.Drops)
 		rep.Case(c.canon(), nPack > 0)
 		distribution(rep, c, implPacks)
 		if i%397 == 0 {
@@ -249,18 +236,24 @@ func main() {
 		}
 		isProp := false
 		for _, f := range finds {
-			if f.kind == "property" {
+			if f.Kind == "property" {
 				isProp = true
 			}
 		}
 		replay := map[string]interface{}{"case": c, "implementation": map[string]interface{}{"packs": implPacks, "state": implState}, "model": model[i]}
 		for _, f := range finds {
-			if f.kind == "property" || !isProp {
-				rep.Fail(f.kind, f.key, f.summary, replay)
+			if f.Kind == "property" || !isProp {
+				rep.Fail(f.Kind, f.Key, f.Summary, replay)
 			}
 		}
 		m, ok := model[i]
 		if !ok {
+			continue
+		}
+		if c.Kind == "getinstance" {
+			if m != implState && !isProp {
+				rep.Fail("correspondence", "model:resolve-differs", "GetInstance settings "+implState+", model "+m, replay)
+			}
 			continue
 		}
 		parts := strings.SplitN(m, " | ", 2)
@@ -277,10 +270,10 @@ func main() {
 			rep.Fail("correspondence", "model:packs-differ",
 				fmt.Sprintf("the property holds on this history, but the packs differ from the model's: implementation %s; model %s", vh.Clip(gotPacks, 400), vh.Clip(want, 400)), replay)
 		}
-		if (j.free != nil || j.reconf != nil) && !strings.HasSuffix(parts[1], "pc=exited cancelled=1") && !isProp {
+		if (c.Kind == "free" || c.Kind == "reconf" || c.Kind == "stopstorm") && !strings.HasSuffix(parts[1], "pc=exited cancelled=1") && !isProp {
 			rep.Fail("correspondence", "model:loop-not-exited", "the loop machine did not exit on the reconstructed schedule: "+vh.Clip(parts[1], 300), replay)
 		}
-		if j.det != nil && parts[1] != implState && !isProp {
+		if c.Kind == "det" && parts[1] != implState && !isProp {
 			rep.Fail("correspondence", "model:state-differs",
 				fmt.Sprintf("the property holds on this history, but the final state differs from the model's: implementation %s; model %s", vh.Clip(implState, 300), vh.Clip(parts[1], 300)), replay)
 		}
@@ -344,46 +337,43 @@ func distribution(rep *vh.Report, c *Case, packs []string) {
 	}
 }
 
-// checkGetInstance: the settings of a sender created through the real singleton constructor.
-func checkGetInstance(env *vh.Env, rep *vh.Report) {
-	zip.ResetForVerif()
+// runGetInstance: the settings of a sender created through the real singleton constructor, and the
+// singleton in queue mode with the goroutine it starts itself.
+func runGetInstance(c *Case) *caseResult {
+	res := &caseResult{Line: "R fixed 0,0,0,0"}
+	e := newEvalCtx([]RecSpec{{ID: 1, Time: t0, N: 5}, {ID: 2, Time: t0 + 1, N: 0}, {ID: 3, Time: t0 + 2, N: 40}})
+	defer func() { res.Finds = e.finds }()
 	cl := &recClient{mode: "consume"}
 	var got Settings
+	singleton.Lock()
+	zip.ResetForVerif()
 	o := vh.Guard(func() {
 		g := zip.GetInstance(zip.WithTcpClient(cl))
 		got = fromVS(g.SettingsForVerif())
 	})
 	zip.ResetForVerif()
-	c := &Case{Kind: "getinstance", Client: "consume"}
-	rep.Case("getinstance WithTcpClient", true)
-	rep.Count("kind:getinstance")
-	replay := map[string]interface{}{"case": c, "call": "zip.GetInstance(zip.WithTcpClient(client))", "settings_in_force": got}
+	singleton.Unlock()
+	res.State = got.String()
+	res.NPack = 1
 	if !o.OK() {
-		rep.Fail("property", "GetInstance:panic", "GetInstance panicked: "+vh.Clip(o.Panic, 200), replay)
-		return
+		e.prop("GetInstance:panic", "GetInstance panicked: %s", vh.Clip(o.Panic, 200))
+		return res
 	}
 	want := Settings{5000, 1000, 65536, 100}
-	outs, err := vh.RunDriver(env.Driver, []string{"R fixed 0,0,0,0"})
-	if err != nil {
-		vh.Die("%v", err)
-	}
 	if got != want {
-		rep.Fail("property", "GetInstance:defaults-overwritten",
-			fmt.Sprintf("a sender created without size/time options has maxWait=%d ms, queue=%d, maxBuffer=%d bytes, zipMin=%d bytes in force; the built-in defaults are 5000 ms, 1000, 65536 bytes, 100 bytes",
-				got.MaxWait, got.QueueCap, got.MaxBuf, got.ZipMin), replay)
-	} else if outs[0] != got.String() {
-		rep.Fail("correspondence", "model:resolve-differs", "GetInstance settings "+got.String()+", model "+outs[0], replay)
-	}
-	if got != want {
-		return // the behaviour below depends on the settings being the defaults
+		e.prop("GetInstance:defaults-overwritten",
+			"a sender created without size/time options has maxWait=%d ms, queue=%d, maxBuffer=%d bytes, zipMin=%d bytes in force; the built-in defaults are 5000 ms, 1000, 65536 bytes, 100 bytes",
+			got.MaxWait, got.QueueCap, got.MaxBuf, got.ZipMin)
+		return res // the behaviour below depends on the settings being the defaults
 	}
 
 	// the singleton in queue mode, with the goroutine GetInstance starts itself: three records are
 	// queued, the context is cancelled; exactly one batch with the three records must arrive
-	e := newEvalCtx([]RecSpec{{ID: 1, Time: t0, N: 5}, {ID: 2, Time: t0 + 1, N: 0}, {ID: 3, Time: t0 + 2, N: 40}})
 	cl2 := &recClient{mode: "retain"}
 	ctx, cancel := context.WithCancel(context.Background())
 	var snd *zip.ZipSendProxyThread
+	singleton.Lock()
+	zip.ResetForVerif()
 	o = vh.Guard(func() {
 		snd = zip.GetInstance(zip.WithUseQueue(), zip.WithContext(ctx, cancel), zip.WithTcpClient(cl2))
 		for id := 1; id <= 3; id++ {
@@ -392,11 +382,10 @@ func checkGetInstance(env *vh.Env, rep *vh.Report) {
 		cancel()
 	})
 	zip.ResetForVerif()
-	rep.Case("getinstance WithUseQueue WithContext: add 1,2,3; cancel", true)
-	replay2 := map[string]interface{}{"case": c, "call": "g := zip.GetInstance(WithUseQueue(), WithContext(ctx, cancel), WithTcpClient(client)); g.Add(r1); g.Add(r2); g.Add(r3); cancel()"}
+	singleton.Unlock()
 	if !o.OK() {
-		rep.Fail("property", "GetInstance:panic", "queue-mode singleton panicked: "+vh.Clip(o.Panic, 200), replay2)
-		return
+		e.prop("GetInstance:panic", "queue-mode singleton panicked: %s", vh.Clip(o.Panic, 200))
+		return res
 	}
 	handed := func() int {
 		cl2.mu.Lock()
@@ -421,14 +410,15 @@ func checkGetInstance(env *vh.Env, rep *vh.Report) {
 		ids = append(ids, x...)
 	}
 	if !eqInts(ids, []int{1, 2, 3}) {
-		e.prop("stop:queued-records-lost", "queue-mode singleton: records 1,2,3 queued, context cancelled: emitted %s within %v", idsStr(ids), watchdog)
+		e.prop("stop:queued-records-lost", "GetInstance in queue mode (WithUseQueue, WithContext): records 1,2,3 queued, context cancelled: emitted %s within %v", idsStr(ids), watchdog)
 	} else if len(got2) != 1 {
-		e.corr("model:packs-differ", "queue-mode singleton: the three records arrived in %d packs, the model batches them into one", len(got2))
+		e.corr("model:packs-differ", "GetInstance in queue mode: the three records arrived in %d packs, the model batches them into one", len(got2))
 	}
-	for _, f := range e.finds {
-		rep.Fail(f.kind, f.key, "GetInstance in queue mode: "+f.summary, replay2)
-	}
+	return res
 }
+
+// singleton serialises the uses of the process-wide GetInstance / ResetForVerif pair
+var singleton sync.Mutex
 
 // runDriverParallel splits the (independent) lines over several driver processes.
 func runDriverParallel(driver string, lines []string, k int) ([]string, error) {
